@@ -32,6 +32,8 @@ def to_tree(postfix: Sequence[Dict[str, Any]]):
             st.append(('var', tk['s'], tk['n'], tk['k']))
         elif t == 'num':
             st.append(('num', tk['s']))
+        elif t == 'verb':
+            st.append(('verb', tk['s']))
         elif t in ('neg', 'paren', 'not'):
             st.append((t, st.pop()))
         elif t in ('bin', 'cmp', 'bool'):
@@ -56,7 +58,7 @@ def strip_parens(tree):
     k = tree[0]
     if k == 'paren':
         return strip_parens(tree[1])
-    if k in ('var', 'num'):
+    if k in ('var', 'num', 'verb'):
         return tree
     if k in ('neg', 'not'):
         return (k, strip_parens(tree[1]))
@@ -105,6 +107,8 @@ def expr_tokens(tree, names, opts, minprec=0):
         return term_tokens(tree[1], names[tree[2] - 1], tree[3], opts)
     if k == 'num':
         return [(tree[1], 'num')]
+    if k == 'verb':
+        return [('`' + tree[1] + '`', 'verb')]   # one lexical token: layouts never touch its inside
     if k == 'paren':
         return [('(', 'lpar')] + expr_tokens(tree[1], names, opts, 0) + [(')', 'rpar')]
     if k == 'call':
@@ -145,10 +149,10 @@ def expr_tokens(tree, names, opts, minprec=0):
 
 
 LAYOUTS = ['canon', 'compact', 'wide', 'tabs', 'comments', 'multiline', 'explicit0', 'plus', 'fullparens',
-           'space_before_bracket', 'space_after_sign']
+           'space_before_bracket', 'space_after_sign', 'crlf']
 # layouts under which fsic is documented / expected to behave identically (C14 catalogue)
 C14_LAYOUTS = ['canon', 'compact', 'wide', 'tabs', 'comments', 'multiline', 'explicit0', 'plus', 'fullparens',
-               'space_before_bracket', 'space_after_sign']
+               'space_before_bracket', 'space_after_sign', 'crlf']
 
 
 def join(tokens: List[Tuple[str, str]], layout: str, rng: random.Random) -> str:
@@ -163,7 +167,7 @@ def join(tokens: List[Tuple[str, str]], layout: str, rng: random.Random) -> str:
                      or (cls == 'lbrack') or inside_term)
             if pc == 'kw' or cls == 'kw':
                 gap = ' '
-            elif layout in ('canon', 'comments', 'multiline', 'explicit0', 'plus', 'fullparens'):
+            elif layout in ('canon', 'comments', 'multiline', 'explicit0', 'plus', 'fullparens', 'crlf'):
                 gap = '' if tight else ' '
                 if pc == 'comma':
                     gap = ' '
@@ -237,6 +241,8 @@ def render_program(stmts, names, layout='canon', seed=0, order=None):
             lines.append('#')
         else:
             lines.append(text)
+    if layout == 'crlf':      # Windows line endings
+        return '\r\n'.join(lines) + '\r\n'
     return '\n'.join(lines)
 
 
@@ -284,6 +290,8 @@ def normalise_nums(tree):
     k = tree[0]
     if k == 'num':
         return ('numv', num_value(tree[1]))
+    if k == 'verb':
+        return ('numv', eval(tree[1]))      # the fragments used are constant expressions
     if k == 'var':
         return tree
     if k in ('neg', 'paren', 'not'):
